@@ -47,13 +47,15 @@ def rand_bonds(rng, qd, L, maxD, consistent=True, mpo=False):
     return qD
 
 
-def rand_mps(rng, L=None, d=None, maxD=3, dtype=None, consistent=True, qd=None):
+def rand_mps(rng, L=None, d=None, maxD=3, dtype=None, consistent=True, qd=None, boundary=None):
     import pytenet as ptn
     L = L if L is not None else int(rng.integers(1, 5))
     d = d if d is not None else int(rng.integers(1, 4))
     dtype = dtype or str(rng.choice(['int', 'float', 'complex']))
     qd = qd if qd is not None else rand_qd(rng, d)
     qD = rand_bonds(rng, qd, L, maxD, consistent)
+    if boundary is not None:
+        qD[0] = np.array([boundary[0]]); qD[-1] = np.array([boundary[1]])
     mps = ptn.MPS(qd, qD, fill='postpone')
     for i in range(L):
         shape = (len(qd), len(qD[i]), len(qD[i + 1]))
